@@ -80,6 +80,10 @@ def main():
         sh("git -C /repo clean -fdq -- gwcs")
     mp = os.path.join(sd, "meta.json")
     meta = json.load(open(mp)) if os.path.exists(mp) else {"property": pid}
+    if "--no-suite" in args and isinstance(meta.get("confirmed"), dict):      # keep the suite verdict of the earlier full confirmation
+        for k in ("suite_with_change", "suite_same_as_baseline"):
+            if k in meta["confirmed"]:
+                res.setdefault(k, meta["confirmed"][k])
     meta["confirmed"] = res
     json.dump(meta, open(mp, "w"), indent=1)
     print(json.dumps(res, indent=1))
